@@ -208,15 +208,41 @@ func genC07(t *rapid.T) C07Case {
 			break
 		}
 		x := rapid.SampledFrom(singles).Draw(t, "sx")
+		// the head letter may also be the unique one-letter abbreviation of a longer name: `-j4` is `--j=4`, and what
+		// `--j` means is the business of the abbreviation rule, the same on both sides
+		var abbrev []string
+		abbrevOf := map[string]string{}
+		for _, k := range keys {
+			r := []rune(k)
+			if len(r) < 2 {
+				continue
+			}
+			h, n := string(r[0]), 0
+			for _, k2 := range keys {
+				if strings.HasPrefix(k2, h) {
+					n++
+				}
+			}
+			if n == 1 && h != "-" && h != "=" {
+				abbrev = append(abbrev, h)
+				abbrevOf[h] = k
+			}
+		}
+		xSpecKey := x
+		if len(abbrev) > 0 && rapid.IntRange(0, 2).Draw(t, "sabbrev") == 0 {
+			x = rapid.SampledFrom(abbrev).Draw(t, "sax")
+			xSpecKey = abbrevOf[x]
+			c.Shape = "abbreviated-head:"
+		}
 		if rapid.IntRange(0, 4).Draw(t, "sbare") == 0 {
 			c.Tok = BS("-" + x)
 			c.Rewrite = Toks{"--" + x}
-			c.Shape = "bare:" + lv.Visible[x].Spec.Kind.String()
+			c.Shape += "bare:" + lv.Visible[xSpecKey].Spec.Kind.String()
 		} else {
-			r := rest("sr", lv.Visible[x].Spec)
+			r := rest("sr", lv.Visible[xSpecKey].Spec)
 			c.Tok = BS("-" + x + r)
 			c.Rewrite = Toks{"--" + x + "=" + r}
-			c.Shape = "rest:" + lv.Visible[x].Spec.Kind.String()
+			c.Shape += "rest:" + lv.Visible[xSpecKey].Spec.Kind.String()
 		}
 	}
 	if c.Rel == "long-modes" {
